@@ -126,8 +126,10 @@ func executeSafe(c *Check, plan *Plan, verbose bool) (run *Run) {
 
 // Minimise: ddmin over steps, then argument shrinking, while the same (property,key) fails.
 func minimise(c *Check, plan *Plan, v Violation, budget int) *Plan {
+	deadline := time.Now().Add(25 * time.Second) // expensive engines: bound minimisation by wall time too
 	same := func(p *Plan) bool {
-		if budget <= 0 {
+		if budget <= 0 || time.Now().After(deadline) {
+			budget = 0
 			return false
 		}
 		budget--
